@@ -22,7 +22,9 @@ def setup():
         head = sh("git -C /repo rev-parse HEAD").stdout.strip()
         sh(f"git checkout -q --detach {head}", cwd=f"{S}/repo")
     os.makedirs(f"{S}/sim", exist_ok=True)
-    sh(f"rsync -a --delete --exclude target {V}/sim/ {S}/sim/")
+    # SENS_SIM_SRC: evaluate an older version of the simulator (e.g. an extracted `git archive`)
+    simsrc = os.environ.get("SENS_SIM_SRC", f"{V}/sim")
+    sh(f"rsync -a --delete --exclude target {simsrc}/ {S}/sim/")
     t = open(f"{S}/sim/Cargo.toml").read().replace('path = "/repo"', f'path = "{S}/repo"')
     open(f"{S}/sim/Cargo.toml", "w").write(t)
     if not os.path.isdir(f"{S}/sim/target"):
